@@ -42,6 +42,13 @@ type Session struct {
 	// EarlyDelete: the session is deleted right after its creation (while init segments may still be
 	// uploading) and then stepped once: nothing but init segments may ever arrive.
 	EarlyDelete bool `json:"early_delete,omitempty"`
+	// Fault: "" | "media-errors" (the receiver answers 500 to every 2nd media upload; the stream must go on
+	// unchanged: no retry, no gap) | "init-error" (the receiver refuses one init segment with 403: the session
+	// must not send media) | "statuscode" (the livesim URL carries a statuscode_ pattern answering 404 for every
+	// other segment: livesim2 itself does not serve those, so they may be absent from the upload log; everything
+	// that is uploaded must still be in order and faithful, and the server must survive)
+	Fault string `json:"fault,omitempty"`
+	Snr   int    `json:"snr,omitempty"`
 }
 
 type Op struct {
@@ -57,7 +64,8 @@ type Case struct {
 
 func genCase(t *rapid.T) (Case, *env.Env) {
 	tg := gen.Target(t, assetgen.Opts{Audio: []string{"", "aac"}, Uniform: true, MinFrames: 25, MaxFrames: 100, Forms: []string{"timeline", "number"},
-		Clocks: []assetgen.Clock{{1000, 40}, {25000, 1000}, {90000, 3600}}}, 60, []string{"testpic_2s", "testpic_2s", "testpic_8s", "testpic_6s"})
+		Clocks: []assetgen.Clock{{1000, 40}, {25000, 1000}, {90000, 3600}, {30000, 1001}, {60000, 1001}}}, 60,
+		[]string{"testpic_2s", "testpic_2s", "testpic_8s", "testpic_6s", "WAVE/vectors/cfhd_sets/14.985_29.97_59.94/t1/2022-10-17"})
 	e, err := env.Get(tg)
 	if err != nil {
 		t.Fatalf("HARNESS: %v", err)
@@ -74,7 +82,14 @@ func genCase(t *rapid.T) (Case, *env.Env) {
 	for i := 0; i < ns; i++ {
 		s := Session{Type: rapid.SampledFrom([]string{"number", "time"}).Draw(t, "type"), Streams: rapid.Bool().Draw(t, "streams"), Auth: rapid.Bool().Draw(t, "auth"),
 			MPD: rapid.SampledFrom(mpds).Draw(t, "mpd"), Slow: rapid.IntRange(0, 4).Draw(t, "slow") == 0}
-		if len(e.Asset.RepsOfType(s.MPD, "video")) > 0 {
+		// generated subtitles run on a millisecond timescale: only for assets whose video boundaries are whole ms
+		wholeMS := true
+		for _, sg := range e.Asset.Ref.Segs {
+			if sg.End*1000%e.Asset.Ref.Timescale != 0 {
+				wholeMS = false
+			}
+		}
+		if wholeMS && len(e.Asset.RepsOfType(s.MPD, "video")) > 0 {
 			s.Subs = rapid.SampledFrom([]string{"", "", "stpp", "wvtt"}).Draw(t, "subs")
 		}
 		segMS := int64(e.Asset.LoopMS) / int64(len(e.Asset.Ref.Segs))
@@ -85,6 +100,11 @@ func genCase(t *rapid.T) (Case, *env.Env) {
 		for _, r := range e.Asset.Reps {
 			if len(r.Segs) != len(e.Asset.Ref.Segs) {
 				sameGrid = false
+				continue
+			}
+			avgMS := (int64(r.Segs[len(r.Segs)-1].End-r.Segs[0].Start)*1000 + int64(r.Timescale)*int64(len(r.Segs))/2) / (int64(r.Timescale) * int64(len(r.Segs)))
+			if avgMS != segMS {
+				sameGrid = false
 			}
 		}
 		if sameGrid && rapid.IntRange(0, 2).Draw(t, "dur?") == 0 {
@@ -94,6 +114,11 @@ func genCase(t *rapid.T) (Case, *env.Env) {
 			}
 		}
 		s.EarlyDelete = rapid.IntRange(0, 5).Draw(t, "early") == 0
+		s.Fault = rapid.SampledFrom([]string{"", "", "", "media-errors", "init-error", "statuscode"}).Draw(t, "fault")
+		s.Snr = rapid.SampledFrom([]int{0, 0, 1, 7}).Draw(t, "snr")
+		if s.Fault == "statuscode" {
+			s.Streams, s.Duration = false, 0 // uploads are matched by the number/time in their path
+		}
 		c.Sessions = append(c.Sessions, s)
 	}
 	n := rapid.IntRange(3, 14).Draw(t, "nops")
@@ -112,8 +137,11 @@ type put struct {
 }
 
 type recv struct {
-	mu   sync.Mutex
-	puts []put
+	mu    sync.Mutex
+	puts  []put
+	fault string
+	nInit int
+	nMed  int
 	slow  bool
 	delay time.Duration
 }
@@ -123,14 +151,27 @@ func (r *recv) ServeHTTP(w http.ResponseWriter, req *http.Request) {
 	if r.slow {
 		time.Sleep(r.delay)
 	}
+	isInit := bytes.Contains(body[:min(len(body), 64)], []byte("ftyp"))
 	r.mu.Lock()
 	r.puts = append(r.puts, put{path: req.URL.Path, ctype: req.Header.Get("Content-Type"), ingest: req.Header.Get("DASH-IF-Ingest"), auth: req.Header.Get("Authorization"), body: body})
+	code := http.StatusOK
+	if isInit {
+		r.nInit++
+		if r.fault == "init-error" && r.nInit == 1 {
+			code = http.StatusForbidden
+		}
+	} else {
+		r.nMed++
+		if r.fault == "media-errors" && r.nMed%2 == 0 {
+			code = http.StatusInternalServerError
+		}
+	}
 	r.mu.Unlock()
 	if req.Method != http.MethodPut {
 		w.WriteHeader(http.StatusMethodNotAllowed)
 		return
 	}
-	w.WriteHeader(http.StatusOK)
+	w.WriteHeader(code)
 }
 
 func (r *recv) count() int {
@@ -164,6 +205,8 @@ type info struct {
 	finished bool
 	deleted  bool
 	early    bool
+	refused  bool
+	faulty   bool
 }
 
 func stripLmsg(b []byte) ([]byte, bool) {
@@ -191,6 +234,7 @@ func checkCase(c Case, e *env.Env) (*hx.Violation, info) {
 		id       string
 		reps     []repInfo
 		parts    []string
+		refParts []string // the same configuration without the fault-injection option
 		expected int // puts expected so far
 		sent     int // media segments per representation sent so far
 		first    int64
@@ -198,6 +242,7 @@ func checkCase(c Case, e *env.Env) (*hx.Violation, info) {
 		done     bool
 		gone     bool
 		early    bool
+		refused  bool
 		tl       *refmodel.Timeline
 	}
 	var ss []*sess
@@ -211,7 +256,7 @@ func checkCase(c Case, e *env.Env) (*hx.Violation, info) {
 	}()
 	segMS := int64(e.Asset.LoopMS) / int64(len(e.Asset.Ref.Segs))
 	for _, s := range c.Sessions {
-		x := &sess{s: s, rc: &recv{slow: s.Slow || s.EarlyDelete, delay: 15 * time.Millisecond}, total: -1}
+		x := &sess{s: s, rc: &recv{slow: s.Slow || s.EarlyDelete, delay: 15 * time.Millisecond, fault: s.Fault}, total: -1}
 		if s.EarlyDelete {
 			x.rc.delay = 40 * time.Millisecond
 		}
@@ -219,10 +264,20 @@ func checkCase(c Case, e *env.Env) (*hx.Violation, info) {
 		ss = append(ss, x)
 		cfg := refmodel.DefaultCfg()
 		cfg.Type = s.Type
+		if s.Snr != 0 {
+			cfg.Snr, cfg.HasSnr = int64(s.Snr), true
+		}
 		if segMS < 1000 {
 			cfg.Extra = []string{"mup_1"}
 		}
 		x.parts = cfg.Parts()
+		x.refParts = x.parts
+		if s.Subs != "" {
+			x.refParts = append(append([]string{}, x.parts...), "timesubs"+s.Subs+"_en")
+		}
+		if s.Fault == "statuscode" {
+			x.parts = append(x.parts, fmt.Sprintf("statuscode_[{cycle:%d,rsq:1,code:404}]", max(2, (2*segMS+999)/1000)))
+		}
 		if s.Subs != "" {
 			x.parts = append(x.parts, "timesubs"+s.Subs+"_en")
 		}
@@ -288,6 +343,10 @@ func checkCase(c Case, e *env.Env) (*hx.Violation, info) {
 		}
 		n, _ := x.tl.LastAvailable(s.TestNowMS)
 		x.first = n + 1
+		if s.Fault == "init-error" {
+			x.refused = true // the session ends after the init phase: steps are refused, nothing more is sent
+			inf.refused = true
+		}
 	}
 	checkLog := func(x *sess) *hx.Violation {
 		x.rc.mu.Lock()
@@ -353,21 +412,41 @@ func checkCase(c Case, e *env.Env) (*hx.Violation, info) {
 			if !x.s.Streams && ps[0].path != "/dest/"+r.id+"/init"+r.ext {
 				return hx.V("upload-path", "init path %q", ps[0].path)
 			}
-			if len(ps)-1 != x.sent {
+			lossy := x.s.Fault == "statuscode"
+			if !lossy && len(ps)-1 != x.sent {
 				return hx.V("segments-per-step", "session %s rep %s: %d media segments after %d effective steps", x.id, r.id, len(ps)-1, x.sent)
 			}
+			numRe := regexp.MustCompile(`(\d+)\.[a-z0-9]+$`)
+			next := int64(0) // offset of the next expected segment
 			for k, p := range ps[1:] {
-				n := x.first + int64(k)
-				var name string
-				switch {
-				case r.rep != nil:
-					tl := refmodel.NewTimeline(e.Asset, r.rep, x.tl.Cfg)
-					name = tl.SegName(r.rep, n)
-				case x.s.Type == "time":
-					name = fmt.Sprintf("%s/%d.m4s", r.id, x.tl.Start(n)*1000/x.tl.TS())
-				default:
-					name = fmt.Sprintf("%s/%d.m4s", r.id, n)
+				nameOf := func(n int64) string {
+					switch {
+					case r.rep != nil:
+						tl := refmodel.NewTimeline(e.Asset, r.rep, x.tl.Cfg)
+						return tl.SegName(r.rep, n)
+					case x.s.Type == "time":
+						return fmt.Sprintf("%s/%d.m4s", r.id, x.tl.Start(n)*1000/x.tl.TS())
+					default:
+						return fmt.Sprintf("%s/%d.m4s", r.id, x.tl.Number(n))
+					}
 				}
+				if lossy {
+					// segments livesim2 answers with the configured status may be absent: find this upload among the remaining expected ones
+					got := numRe.FindStringSubmatch(p.path)
+					found := false
+					for ; next < int64(x.sent); next++ {
+						if w := numRe.FindStringSubmatch(nameOf(x.first + next)); got != nil && w != nil && w[1] == got[1] {
+							found = true
+							break
+						}
+					}
+					if !found {
+						return hx.V("wrong-segment-number", "session %s rep %s: media upload %d goes to %q, which is not one of the remaining expected segments (duplicate, reordered or outside the %d steps)", x.id, r.id, k, p.path, x.sent)
+					}
+				}
+				n := x.first + next
+				next++
+				name := nameOf(n)
 				if !x.s.Streams {
 					base := strings.TrimSuffix(name[strings.LastIndex(name, "/")+1:], ".m4s")
 					// the path carries the number (or time) of the segment
@@ -378,7 +457,7 @@ func checkCase(c Case, e *env.Env) (*hx.Violation, info) {
 					}
 				}
 				now := gen.CeilDivU(x.tl.AvailU(n), x.tl.TS()) + 1
-				ref := e.Srv.Get(ls.URL(x.parts, e.Asset.Path, name, now))
+				ref := e.Srv.Get(ls.URL(x.refParts, e.Asset.Path, name, now))
 				if ref.Code != 200 {
 					return hx.V("harness", "reference GET %s -> %v", name, ref)
 				}
@@ -439,7 +518,7 @@ func checkCase(c Case, e *env.Env) (*hx.Violation, info) {
 			}
 			finished := x.total >= 0 && x.sent >= x.total
 			switch {
-			case x.gone || finished:
+			case x.gone || finished || x.refused:
 				// a stopped session sends nothing more; the step is refused
 				if r.Code == 200 {
 					// tolerated: the call may return 200 without effect if the loop is just ending
@@ -457,7 +536,9 @@ func checkCase(c Case, e *env.Env) (*hx.Violation, info) {
 				inf.finished = true
 			}
 		}
-		if !x.early && !x.rc.waitFor(x.expected, 3*time.Second) {
+		if x.s.Fault == "statuscode" {
+			time.Sleep(40 * time.Millisecond)
+		} else if !x.early && !x.rc.waitFor(x.expected, 3*time.Second) {
 			return hx.V("segment-missing", "op %d (%s): session %s delivered %d of %d uploads", i, op.Kind, x.id, x.rc.count(), x.expected), inf
 		}
 		time.Sleep(2 * time.Millisecond) // let a surplus upload show up
@@ -486,7 +567,7 @@ func TestC16(t *testing.T) {
 		}
 		return
 	}
-	run.Essential(">=3-steps-with->=2-reps", "duration-finished", "deleted", "deleted-during-init", "concurrent-sessions")
+	run.Essential(">=3-steps-with->=2-reps", "duration-finished", "deleted", "deleted-during-init", "concurrent-sessions", "init-refused", "media-errors", "snr!=0")
 	run.Rapid(t, 1, 40, 250, func(rt *rapid.T) {
 		c, e := genCase(rt)
 		v, inf := checkCase(c, e)
@@ -503,6 +584,21 @@ func TestC16(t *testing.T) {
 		}
 		if inf.early {
 			cls = append(cls, "deleted-during-init")
+		}
+		if inf.refused {
+			cls = append(cls, "init-refused")
+		}
+		for _, s := range c.Sessions {
+			if s.Fault == "media-errors" && inf.steps >= 2 {
+				cls = append(cls, "media-errors")
+				break
+			}
+		}
+		for _, s := range c.Sessions {
+			if s.Snr != 0 {
+				cls = append(cls, "snr!=0")
+				break
+			}
 		}
 		if len(c.Sessions) > 1 {
 			cls = append(cls, "concurrent-sessions")
